@@ -134,11 +134,11 @@ func (handler *HeadersHandler) Handle(ctx context.Context, m wire.Message) ([]wi
 			continue
 		}
 
-		// Check if this block is a reorg in pending blocks
-		if handler.state.BlockIsRequested(&header.PrevBlock) ||
-			handler.state.BlockIsToBeRequested(&header.PrevBlock) {
+		// Check if this block is a reorg in pending blocks. The check and the removal of the
+		// requests beyond the fork are done in one step so the block processor can't take the
+		// previous block out of the requests in between.
+		if handler.state.ClearBlockRequestsAfter(ctx, header.PrevBlock) {
 			logger.Info(ctx, "Reorg in pending blocks")
-			handler.state.ClearBlockRequestsAfter(ctx, header.PrevBlock)
 
 			// Request it if it isn't already requested.
 			sendRequest, err := handler.state.AddBlockRequest(&header.PrevBlock, hash)
